@@ -297,11 +297,7 @@ def fpToUBV(rm, fp, size):
     try:
         rounding_mode = rm.pydecimal_equivalent_rounding_mode()
         val = int(Decimal(fp.value).to_integral_value(rounding_mode))
-        assert val & ((1 << size) - 1) == val, (
-            f"Rounding produced values outside the BV range! rounding {fp.value} with rounding mode {rm} produced {val}"
-        )
-        if val < 0:
-            val = (1 << size) + val
+        # out-of-range results are unspecified; wrap like fpToSBV instead of failing an assertion
         return BVV(val, size)
 
     except (ValueError, OverflowError):
